@@ -39,6 +39,15 @@ Next == StartRead \/ (\E r \in {"doc", "err"} : ReadReturns(r)) \/ (\E f \in Fea
         \/ StartWrite \/ (\E r \in {"ok", "err"} : WriteReturns(r))
 Spec == Init /\ [][Next]_vars /\ WF_vars(Next)
 
+\* Which WriterError a class of malformed input yields (error.rs).  Not a property of the list - any Err is
+\* acceptable to C13 - but part of the system's behaviour: observed variants are matched against it (drift).
+ErrorOf == [import_without_namespace |-> "NamespaceMissing", import_of_missing_file |-> "ImportNotFound",
+            types_without_schema |-> "SchemaNotFound", unknown_message |-> "MessageNotFound",
+            encoded_body |-> "UnsupportedEncoding", invalid_address |-> "InvalidUrl", invalid_soap_action |-> "InvalidUrl",
+            part_without_element |-> "AttributeMissing", binding_without_type |-> "AttributeMissing",
+            unknown_port_type |-> "NodeNotFound", unknown_binding |-> "NodeNotFound", unknown_part_element |-> "NodeNotFound",
+            not_xml |-> "Message", start_unknown |-> "ImportNotFound"]
+
 \* C13
 Robust == rd \in {"none", "doc", "err"} /\ wr \in {"none", "ok", "err"}
 Terminates == <>(pc = "done")
